@@ -43,6 +43,7 @@ func newPktMgr(sender packetSender) *packetManager {
 // // packet ordering
 func (s *packetManager) newOrderID() uint32 {
 	s.packetCount++
+	verifPM(s, 'A', s.packetCount, nil)
 	return s.packetCount
 }
 
@@ -96,6 +97,7 @@ func (s *packetManager) incomingPacket(pkt orderedRequest) {
 
 // register outgoing packets as being ready
 func (s *packetManager) readyPacket(pkt orderedResponse) {
+	verifPM(s, 'F', pkt.orderid, nil)
 	s.responses <- pkt
 	s.working.Done()
 }
@@ -127,6 +129,7 @@ func (s *packetManager) workerChan(runWorker func(chan orderedRequest),
 		for pkt := range pktChan {
 			switch pkt.requestPacket.(type) {
 			case *sshFxpReadPacket, *sshFxpWritePacket:
+				verifPM(s, 'D', pkt.orderid, pkt.requestPacket)
 				s.incomingPacket(pkt)
 				rwChan <- pkt
 				continue
@@ -135,6 +138,7 @@ func (s *packetManager) workerChan(runWorker func(chan orderedRequest),
 				// incomingPacket() call must occur after this
 				s.working.Wait()
 			}
+			verifPM(s, 'D', pkt.orderid, pkt.requestPacket)
 			s.incomingPacket(pkt)
 			// all non-RW use sequential cmdChan
 			cmdChan <- pkt
@@ -152,10 +156,12 @@ func (s *packetManager) controller() {
 	for {
 		select {
 		case pkt := <-s.requests:
+			verifPM(s, 'Q', pkt.orderID(), nil)
 			debug("incoming id (oid): %v (%v)", pkt.id(), pkt.orderID())
 			s.incoming = append(s.incoming, pkt)
 			s.incoming.Sort()
 		case pkt := <-s.responses:
+			verifPM(s, 'R', pkt.orderID(), nil)
 			debug("outgoing id (oid): %v (%v)", pkt.id(), pkt.orderID())
 			s.outgoing = append(s.outgoing, pkt)
 			s.outgoing.Sort()
@@ -180,6 +186,7 @@ func (s *packetManager) maybeSendPackets() {
 		// debug("outgoing: %v", ids(s.outgoing))
 		if in.orderID() == out.orderID() {
 			debug("Sending packet: %v", out.id())
+			verifPM(s, 'E', out.orderID(), nil)
 			s.sender.sendPacket(out.(encoding.BinaryMarshaler))
 			if s.alloc != nil {
 				// mark for reuse the slices allocated for this request
